@@ -4,8 +4,8 @@ CONSTANTS
   Heads <- HeadsValG
   Levels = {}
   Calls = {}
-  TextBytes = {5, 224, 251}
-  MaxText = 4
+  TextBytes = {5, 251}
+  MaxText = 3
   Ops = {"abort"}
   LogMax = 256
   AsFound = {}
